@@ -60,6 +60,8 @@ var c06Exprs = []string{
 	"/:z", "/a:b", "/a*c", "/ab:c/:x",
 	// escapes which request path normalisation would spell differently (never probed, only loaded, replaced and removed)
 	"/caf%c3%a9/:x", "/%7Eu",
+	// the other two escapes at the beginning of a segment: a literal '*' and a literal backslash
+	`/\*s`, `/a/\\s/:x`,
 }
 
 func exprValid(e string) bool { _, ok := core.ParseExpr(e); return ok }
@@ -371,6 +373,7 @@ func TestC06(t *testing.T) {
 			return
 		}
 		state := map[string]version{}
+		gone := map[string]version{}
 		var hist []c06Op
 		nOps := 1 + rng.IntN(r.Pick(10, 14))
 		checkAt := rng.IntN(nOps)
@@ -385,10 +388,14 @@ func TestC06(t *testing.T) {
 			case !loaded && step > 0 && rng.IntN(4) == 0:
 				// an update for a source that has nothing loaded (after a rejected creation, or never created): it loads the rules
 				op = c06Op{Kind: "update", Src: src, V: genVersion(rng, src, nil)}
+			case !loaded && gone[src] != nil && rng.IntN(2) == 0:
+				// the source comes back with exactly the content it had when it went away (file restored, endpoint answering again)
+				op = c06Op{Kind: "create", Src: src, V: gone[src].clone()}
 			case !loaded:
 				op = c06Op{Kind: "create", Src: src, V: genVersion(rng, src, nil)}
 			case rng.IntN(5) == 0:
 				op = c06Op{Kind: "delete", Src: src}
+				gone[src] = cur.clone()
 			default:
 				op = c06Op{Kind: "update", Src: src, V: genVersion(rng, src, cur)}
 			}
